@@ -365,18 +365,34 @@ def show_proto(c):
 
 def run_protos(ck):
     n = ck.n(400, 8000)
+    cases = []
+    corpus = os.path.join(CORPUS, "protos.jsonl")
+    if os.path.exists(corpus):
+        outp = os.path.join(ck.work, "protos_corpus.jsonl")
+        rc, out = ck.go_run("seriesid", ["--mode", "protos", "--seed", ck.seed, "--cases", corpus, "--out", outp])
+        if rc != 0:
+            ck.obligation("harness seriesid --mode protos ran on the corpus", False, out[-1500:])
+            return
+        cs = [json.loads(l) for l in open(outp)]
+        for i, c in enumerate(cs):
+            c["id"] = 1000000 + i
+            c["corpus"] = c.get("class", "")
+            c["class"] = {"dd_logs": "datadog_logs", "dd_cf": "datadog_cf", "dd_metrics": "datadog_metrics", "es_doc": "elastic_doc", "es_bulk": "elastic_bulk",
+                          "otlp": "otlp_logs", "influx_metric": "influx_metric"}.get(c["wire"]["kind"]) or (
+                              "loki_ttl_label" if any(unhex(a) == b"__ttl_days__" for a, _ in c["wire"].get("tags") or []) else "loki_ttl_header_only")
+        cases += cs
     outp = os.path.join(ck.work, "protos.jsonl")
     rc, out = ck.go_run("seriesid", ["--mode", "protos", "--seed", ck.seed, "--n", n, "--out", outp])
     if rc != 0:
         ck.obligation("harness seriesid --mode protos ran", False, out[-1500:])
         return
-    cases = [json.loads(l) for l in open(outp)]
+    cases += [json.loads(l) for l in open(outp)]
     bad = [c for c in cases if c.get("panic") or c.get("err")]
     ck.obligation("every Datadog / Elasticsearch / OTLP / Influx-metric request was parsed into a series row (in every wire order and under both fingerprint types)",
                   not bad, json.dumps(bad[:1])[:800])
     for c in bad[:1]:
         ck.violation({"property": "C04", "part": "protos", "kind": "parser error or panic on a generated request", "case": c,
-                      "replay": "seriesid --mode protos --seed %s --n %d (case id %d)" % (ck.seed, n, c["id"])})
+                      "replay": "seriesid --mode protos --cases <file with the line {\"id\": 0, \"wire\": <the wire member of this case>}>  (or --seed %s --n %d, case id %d)" % (ck.seed, n, c["id"])})
     ok = [c for c in cases if c not in bad]
     byid = {c["id"]: c for c in ok}
     res = {k: [] for k in P_LISTS}
@@ -419,12 +435,12 @@ def run_protos(ck):
         c = min((byid[i] for i in res["V_pproto"]), key=size)
         ck.violation({"property": "C04", "part": "protos", "kind": "the fingerprint of a label set depends on the ingest protocol (outside the recorded finding: sanitizeLabels leaves this label list unchanged)",
                       "case": c, "readable": show_proto(c), "fingerprint of the same labels through Loki": c.get("fp_loki"), "explanation": "pv_proto_new (model/ProtoLabels.v)",
-                      "replay": "seriesid --mode protos --seed %s --n %d (case id %d)" % (ck.seed, n, c["id"])})
+                      "replay": "seriesid --mode protos --cases <file with the line {\"id\": 0, \"wire\": <the wire member of this case>}>  (or --seed %s --n %d, case id %d)" % (ck.seed, n, c["id"])})
     if res["V_phdr"] and not ck.violations:
         c = min((byid[i] for i in res["V_phdr"]), key=size)
         ck.violation({"property": "C04", "part": "protos", "kind": "the fingerprint of a label set depends on whether the request carried a TTL header (outside the recorded finding: no __ttl_days__ label in the stream)",
                       "case": c, "readable": show_proto(c), "fingerprint with X-Ttl-Days: 7": c.get("fp_hdr"), "explanation": "pv_hdr_new (model/ProtoLabels.v)",
-                      "replay": "seriesid --mode protos --seed %s --n %d (case id %d)" % (ck.seed, n, c["id"])})
+                      "replay": "seriesid --mode protos --cases <file with the line {\"id\": 0, \"wire\": <the wire member of this case>}>  (or --seed %s --n %d, case id %d)" % (ck.seed, n, c["id"])})
     # the READ side's own decoder on the stored text: same pairs as a strict JSON reading of the document (Python's), which
     # pv_doc ties to the label list the decoder built
     def strict_pairs(c):
@@ -446,17 +462,17 @@ def run_protos(ck):
         c = min(rdbad, key=size)
         ck.violation({"property": "C04", "part": "protos", "kind": "the reader's decoder of stored label documents does not return the labels the document was written for",
                       "case": c, "readable": show_proto(c), "reader": c.get("rd_err") or c.get("rd"),
-                      "replay": "seriesid --mode protos --seed %s --n %d (case id %d)" % (ck.seed, n, c["id"])})
+                      "replay": "seriesid --mode protos --cases <file with the line {\"id\": 0, \"wire\": <the wire member of this case>}>  (or --seed %s --n %d, case id %d)" % (ck.seed, n, c["id"])})
     if res["V_pperm"]:
         c = min((byid[i] for i in res["V_pperm"]), key=size)
         ck.violation({"property": "C04", "part": "protos", "kind": "fingerprint depends on the order the request presents its labels in",
                       "case": c, "readable": show_proto(c), "explanation": "pv_perm (model/ProtoLabels.v)",
-                      "replay": "seriesid --mode protos --seed %s --n %d (case id %d)" % (ck.seed, n, c["id"])})
+                      "replay": "seriesid --mode protos --cases <file with the line {\"id\": 0, \"wire\": <the wire member of this case>}>  (or --seed %s --n %d, case id %d)" % (ck.seed, n, c["id"])})
     if res["V_pdoc"] and not ck.violations:
         c = min((byid[i] for i in res["V_pdoc"]), key=size)
         ck.violation({"property": "C04", "part": "protos", "kind": "stored labels text is not JSON for the label list the decoder built",
                       "case": c, "readable": show_proto(c), "explanation": "pv_doc (model/ProtoLabels.v)",
-                      "replay": "seriesid --mode protos --seed %s --n %d (case id %d)" % (ck.seed, n, c["id"])})
+                      "replay": "seriesid --mode protos --cases <file with the line {\"id\": 0, \"wire\": <the wire member of this case>}>  (or --seed %s --n %d, case id %d)" % (ck.seed, n, c["id"])})
     ck.obligation("correspondence: with a TTL header the control label __ttl_days__ stays in the fingerprinted list (on_entries_labels)", not res["M_phdr"],
                   "case ids: %s" % res["M_phdr"][:10])
     if res["K_hdr"]:
@@ -467,7 +483,7 @@ def run_protos(ck):
         else:
             ck.violation({"property": "C04", "part": "protos", "kind": "the fingerprint of a label set depends on whether the request carried a TTL header",
                           "case": c, "readable": show_proto(c), "fingerprint with X-Ttl-Days: 7": c.get("fp_hdr"), "explanation": "pv_hdr (model/ProtoLabels.v)",
-                          "replay": "seriesid --mode protos --seed %s --n %d (case id %d)" % (ck.seed, n, c["id"])})
+                          "replay": "seriesid --mode protos --cases <file with the line {\"id\": 0, \"wire\": <the wire member of this case>}>  (or --seed %s --n %d, case id %d)" % (ck.seed, n, c["id"])})
     if res["K_unsan"]:
         c = min((byid[i] for i in res["K_unsan"]), key=size)
         if "labels-unsanitized-by-protocol" in ck.known_findings():
@@ -479,7 +495,7 @@ def run_protos(ck):
         else:
             ck.violation({"property": "C04", "part": "protos", "kind": "a decoder stores labels that are not sanitized (the same label set through Loki gets another fingerprint)",
                           "case": c, "readable": show_proto(c), "fingerprint of the same labels through Loki": c.get("fp_loki"), "explanation": "pk_unsan (model/ProtoLabels.v)",
-                          "replay": "seriesid --mode protos --seed %s --n %d (case id %d)" % (ck.seed, n, c["id"])})
+                          "replay": "seriesid --mode protos --cases <file with the line {\"id\": 0, \"wire\": <the wire member of this case>}>  (or --seed %s --n %d, case id %d)" % (ck.seed, n, c["id"])})
     mm = res["M_pfp"] + res["M_pdjb"] + res["M_pdoc"] + res["M_phdr"] + res["M_ploki"]
     if mm and not ck.violations:
         c = min((byid[i] for i in mm), key=size)
